@@ -13,7 +13,8 @@ RULE = ("icontract post-conditions on the real routines: trsbox_geometry (box to
         "synthetic inputs (c in {0,1,random}, g with zero components, Delta over 5 decades, degenerate/active/infinite sides; 1-4 "
         "balls/half-spaces/boxes containing the centre incl. centre on the boundary and several active half-spaces) and in situ "
         "during bounded / convex-constrained / regularised (incl. scaled) solver runs. Non-trivial = geometry input with >= 1 "
-        "active or within-Delta bound, or convex step with >= 1 active set; distinct by input index")
+        "active or within-Delta bound, or convex step with >= 1 active set; distinct by input index"
+        ' Second session: sampled Dykstra budgets (1..1000 sweeps) / tolerances and S-FISTA knobs in the synthetic convex-step calls; +-inf bound entries in the geometry inputs; shared options (growing with and without safety step, restarts, seldom-used keys) on the in-situ runs.')
 ASSUMPTIONS = ["trsbox_geometry deliberately ignores |g_i| < 1e-14 (ZERO_THRESH, pinned by the repository's TestGeom2WithAlmostZeros) and relaxes "
                "bounds by 1e-14: absolute floor n*1e-14*Delta on optimality",
                "convex steps are returned as p - xopt: 8 eps |xopt| rounding allowance"]
